@@ -438,6 +438,13 @@ func c16GenArgvx(rng *rand.Rand, tier string, emitReal func(string)) {
 		c16Argvx("grep", c16CanonTok([]string{"--inverse-match", "--min-length=3"}), []string{"-vl", "3"}),
 		c16Argvx("grep", c16CanonTok([]string{"--inverse-match", "--min-length=3"}), []string{"-vl=3"}),
 		c16Argvx("grep", c16CanonTok([]string{"--min-length=3", "--inverse-match"}), []string{"-lv", "3"}),
+		// an option taking a value inside a bundle takes the next word(s), in order (the theorem canonical_spelling covers it)
+		c16Argvx("grep", c16CanonTok([]string{"--min-length=3", "--min-count=4", "--inverse-match"}), []string{"-lcv", "3", "4"}),
+		c16Argvx("grep", c16CanonTok([]string{"--min-length=3", "--min-count=4"}), []string{"-lc=4", "3"}),
+		c16Argvx("grep", c16CanonTok([]string{"--inverse-match", "--sequence=acgt", "--min-length=5", "--max-count=7"}), []string{"-vsl", "acgt", "5", "--max-co", "7"}),
+		c16Argvx("grep", "E", []string{"-lc", "3"}),
+		c16Argvx("grep", "E", []string{"-lc", "3", "-4"}),
+		c16Argvx("dist", c16CanonTok([]string{"--pattern=x%s", "--batches=2", "--append"}), []string{"-pnA", "x%s", "2"}),
 		c16Argvx("grep", c16CanonTok([]string{"--min-length=3"}), []string{"--min-l", "3", "--", "-v", "--bogus"}),
 		c16Argvx("grep", c16CanonTok([]string{"--ignore-taxon=1", "--ignore-taxon=2", "--ignore-taxon=3"}), []string{"-i", "1..3"}),
 		c16Argvx("grep", c16CanonTok([]string{"--sequence=--"}), []string{"-s", "--"}),
@@ -586,6 +593,53 @@ func c16GenArgvx(rng *rand.Rand, tier string, emitReal func(string)) {
 		}
 		emit(c16Argvx(cmd, c16CanonTok(canon), words))
 		stat("argvx.valid")
+	}
+	// bundles holding several options that take a value: each takes the next word, in order
+	for i := 0; i < n/4; i++ {
+		cmd := cmds[rng.Intn(3)]
+		var shorts []c16OptDecl
+		for _, d := range c16DeclsOf(cmd) {
+			if d.short != "" && !(cmd == "dist" && d.long == "pattern") {
+				shorts = append(shorts, d)
+			}
+		}
+		canon := req(cmd)
+		words := append([]string{}, canon...)
+		bundle := "-"
+		var vals []string
+		nval := 0
+		for k := 0; k < 2+rng.Intn(3); k++ {
+			d := shorts[rng.Intn(len(shorts))]
+			occ := c16CanonOcc(rng, d)
+			if d.kind != 'b' {
+				val := occ[0][len(d.long)+3:]
+				for try := 0; (val == "" || strings.HasPrefix(val, "-")) && try < 20; try++ {
+					occ = c16CanonOcc(rng, d)
+					val = occ[0][len(d.long)+3:]
+				}
+				if val == "" || strings.HasPrefix(val, "-") {
+					continue
+				}
+				vals = append(vals, val)
+				nval++
+			}
+			canon = append(canon, occ...)
+			bundle += d.short
+		}
+		if len(bundle) < 3 {
+			continue
+		}
+		words = append(words, bundle)
+		words = append(words, vals...)
+		if rng.Intn(3) == 0 {
+			words = append(words, "file1.fasta")
+		}
+		emit(c16Argvx(cmd, c16CanonTok(canon), words))
+		if nval >= 2 {
+			stat("argvx.bundle.values>=2")
+		} else {
+			stat("argvx.bundle.values<2")
+		}
 	}
 	// one defect injected in a valid command line
 	for i := 0; i < n; i++ {
